@@ -1,4 +1,5 @@
 import IstioModel.C07.ScopeLemmas
+import IstioModel.C07.VSTheorems
 
 /-!
 C07 - sidecar scope theorems.
@@ -6,38 +7,38 @@ C07 - sidecar scope theorems.
 `Imported` is the specification of "the Sidecar egress scope imports the service": some egress
 listener of the applicable Sidecar (the single `*/*` listener when none applies) has a host entry
 that imports it (`HostImports`: a non-excluded `ns/host`, `./host` or `*/host` entry covering the
-hostname, no `~` entry covering it), or imports a VirtualService that routes to its hostname.
+hostname, no `~` entry covering it), or imports (`VSImports`) a mesh-gateway VirtualService that is
+exported to the proxy's namespace (`VSVisible`) and routes to the hostname.  None of these
+specifications mentions a function of the model of sidecar.go / virtualservice.go.
 `Visible` (VisTheorems) is the specification of "exported to the namespace".
 -/
 namespace IstioModel.C07
 
 /-- **spec**: the scope of `sc` (none = default scope) in namespace `cfgNs` imports service `o` -/
-def Imported (f : Flags) (m : Mesh) (vss : List VS) (sc : Option Sidecar) (cfgNs : String) (o : Svc) : Prop :=
+def Imported (m : Mesh) (vss : List VS) (sc : Option Sidecar) (cfgNs : String) (o : Svc) : Prop :=
   ∃ l ∈ egressOf sc,
     HostImports (parseHosts cfgNs l.hosts) o.ns o.hostname ∨
-    ∃ v ∈ selectVirtualServices f.unified m vss cfgNs (parseHosts cfgNs l.hosts),
+    ∃ v ∈ vss, vsOnMesh v = true ∧ VSVisible m v cfgNs ∧ VSImports (parseHosts cfgNs l.hosts) v ∧
       ∃ d ∈ vsDestinations v cfgNs, d.1 = o.hostname
 
-theorem foldl_inv {β α : Type} (g : β → α → β) (P : β → Prop) (l : List α) (b : β) (hb : P b)
-    (hstep : ∀ b a, a ∈ l → P b → P (g b a)) : P (l.foldl g b) := by
-  induction l generalizing b with
-  | nil => exact hb
-  | cons a t ih =>
-    rw [List.foldl_cons]
-    exact ih (g b a) (hstep b a List.mem_cons_self hb) (fun b' a' ha' => hstep b' a' (List.mem_cons_of_mem _ ha'))
+/-- the same for one egress listener -/
+def ListenerImports (cfgNs : String) (l : Listener) (o : Svc) : Prop :=
+  HostImports (parseHosts cfgNs l.hosts) o.ns o.hostname
 
-/-- invariant of `collectImportedServices` for one listener, for any predicate that only reads the
-    core of a service -/
-theorem collectListener_inv (Q : Svc → Prop) (hQ : ∀ x y : Svc, x.core = y.core → Q y → Q x)
+/-- invariant of `collectImportedServices` for one listener, for any predicate that survives port
+    trimming / merging and alias trimming -/
+theorem collectListener_inv (Q : Svc → Prop)
+    (hQ : ∀ x y : Svc, x.core = y.core → (∀ a ∈ x.aliases, a ∈ y.aliases) → Q y → Q x)
     (f : Flags) (m : Mesh) (svcs : List Svc) (cfgNs : String) (acc : List Svc) (ilw : ILW)
     (hacc : ∀ x ∈ acc, Q x) (hsv : ∀ x ∈ ilw.services, Q x)
-    (hvs : ∀ v ∈ ilw.vss, ∀ d ∈ vsDestinations v cfgNs, ∀ s, resolveDest f m svcs cfgNs d.1 = some s → Q s) :
+    (hvs : ∀ v ∈ ilw.vss, ∀ d ∈ vsDestinations v cfgNs, ∀ s, resolveDest f m svcs cfgNs d.1 = some s →
+      Q (trimHiddenAlias f.aliasGuard m svcs cfgNs s)) :
     ∀ x ∈ collectListener f m svcs cfgNs acc ilw, Q x := by
   unfold collectListener
   have happ : ∀ (a : List Svc) (s : Svc), (∀ x ∈ a, Q x) → Q s → ∀ x ∈ appendSvc a s, Q x := by
     intro a s ha hs x hx
-    rcases mem_appendSvc hx with ⟨y, hy, hxy⟩ | rfl
-    · exact hQ x y hxy (ha y hy)
+    rcases mem_appendSvc hx with ⟨y, hy, hxy, hal⟩ | rfl
+    · exact hQ x y hxy (fun a ha => hal ▸ ha) (ha y hy)
     · exact hs
   apply foldl_inv (P := fun a => ∀ x ∈ a, Q x)
   · apply foldl_inv (P := fun a => ∀ x ∈ a, Q x)
@@ -52,61 +53,149 @@ theorem collectListener_inv (Q : Svc → Prop) (hQ : ∀ x y : Svc, x.core = y.c
       | none => exact hb'
       | some s =>
         have hqs := hvs v hv d hd s hr
-        simp only
+        simp only [Option.map_some]
         cases hmp : ilw.matchPort with
         | some p =>
           simp only
-          cases hq : svcMatchingListenerPort s p with
+          cases hq : svcMatchingListenerPort (trimHiddenAlias f.aliasGuard m svcs cfgNs s) p with
           | none => exact hb'
-          | some x' => exact happ b' x' hb' (hQ x' s (listenerPort_some hq).1 hqs)
+          | some x' =>
+            obtain ⟨h1, _, h3, _⟩ := listenerPort_some hq
+            exact happ b' x' hb' (hQ x' _ h1 (fun a ha => h3 ▸ ha) hqs)
         | none =>
           simp only
-          cases hq : svcMatchingVSPorts s d.2 with
+          cases hq : svcMatchingVSPorts (trimHiddenAlias f.aliasGuard m svcs cfgNs s) d.2 with
           | none => exact hb'
-          | some x' => exact happ b' x' hb' (hQ x' s (vsPorts_some hq).1 hqs)
+          | some x' =>
+            obtain ⟨h1, _, h3⟩ := vsPorts_some hq
+            exact happ b' x' hb' (hQ x' _ h1 (fun a ha => h3 ▸ ha) hqs)
 
-/-- **scope_sound**: on the repaired code every service of `SidecarScope.services` is (a port/alias
-    trimmed or port-merged copy of) a service of the mesh that `IsServiceVisible` accepts for the
-    proxy's namespace and that the scope imports - for every mesh, every service list (colliding
-    hostnames, duplicates), every exportTo form and mesh default, every Sidecar or none, both
-    `UnifiedSidecarScoping` / `PickBest` settings, and with or without the exact-host repair. -/
-theorem scope_sound (f : Flags) (hfix : f.visGuard = true) (m : Mesh) (svcs : List Svc) (vss : List VS)
-    (sc : Option Sidecar) (cfgNs : String) :
-    ∀ s ∈ scopeServices f m svcs vss sc cfgNs,
-      ∃ o ∈ svcs, s.core = o.core ∧ isServiceVisible m o cfgNs = true ∧ Imported f m vss sc cfgNs o := by
-  let Q : Svc → Prop := fun s => ∃ o ∈ svcs, s.core = o.core ∧ isServiceVisible m o cfgNs = true ∧ Imported f m vss sc cfgNs o
-  have hQ : ∀ x y : Svc, x.core = y.core → Q y → Q x := by
-    rintro x y hxy ⟨o, ho, hyo, hv, hi⟩; exact ⟨o, ho, hxy.trans hyo, hv, hi⟩
+/-- the generic invariant of the whole scope construction -/
+theorem scope_inv (Q : Svc → Prop)
+    (hQ : ∀ x y : Svc, x.core = y.core → (∀ a ∈ x.aliases, a ∈ y.aliases) → Q y → Q x)
+    (f : Flags) (m : Mesh) (svcs : List Svc) (vss : List VS) (sc : Option Sidecar) (cfgNs : String)
+    (hsv : ∀ l ∈ egressOf sc, ∀ x ∈ (convertListener f m svcs vss cfgNs l).services, Q x)
+    (hvs : ∀ l ∈ egressOf sc, ∀ v ∈ (convertListener f m svcs vss cfgNs l).vss, ∀ d ∈ vsDestinations v cfgNs,
+      ∀ s, resolveDest f m svcs cfgNs d.1 = some s → Q (trimHiddenAlias f.aliasGuard m svcs cfgNs s)) :
+    ∀ x ∈ scopeServices f m svcs vss sc cfgNs, Q x := by
   unfold scopeServices collectImportedServices scopeListeners
   apply foldl_inv (P := fun a => ∀ x ∈ a, Q x)
   · intro x hx; simp at hx
   · intro acc ilw hilw hacc
     obtain ⟨l, hl, rfl⟩ := List.mem_map.mp hilw
-    apply collectListener_inv Q hQ f m svcs cfgNs acc _ hacc
-    · -- explicitly imported services
-      intro x hx
-      simp only [convertListener] at hx
-      obtain ⟨c, hc, hio⟩ := mem_selectServices hx
-      obtain ⟨hcore, _, himp⟩ := importOne_some hio
-      have hcv : c ∈ svcs ∧ isServiceVisible m c cfgNs = true := by
-        split at hc
-        · exact exact_sound hc
-        · exact exported_sound m svcs cfgNs c hc
-      exact ⟨c, hcv.1, hcore, hcv.2, l, hl, Or.inl himp⟩
-    · -- destinations of imported VirtualServices
-      intro v hv d hd s hr
-      obtain ⟨h1, h2, h3⟩ := resolveDest_some hr
-      simp only [convertListener] at hv
-      exact ⟨s, h1, rfl, h3 hfix, l, hl, Or.inr ⟨v, hv, d, hd, h2.symm⟩⟩
+    exact collectListener_inv Q hQ f m svcs cfgNs acc _ hacc (hsv l hl) (hvs l hl)
+
+/-- the candidates of a listener are (alias-trimmed copies of) visible mesh services -/
+theorem mem_listener_cands {f : Flags} {m : Mesh} {svcs : List Svc} {cfgNs : String} {ps : List PHost} {c : Svc}
+    (hc : c ∈ (if allExact ps then servicesForExactHosts f.exactGuard m svcs cfgNs ps
+               else servicesExportedToNamespace m svcs cfgNs).map (trimHiddenAlias f.aliasGuard m svcs cfgNs)) :
+    ∃ c0 ∈ svcs, c = trimHiddenAlias f.aliasGuard m svcs cfgNs c0 ∧ isServiceVisible m c0 cfgNs = true := by
+  obtain ⟨c0, hc0, rfl⟩ := List.mem_map.mp hc
+  have : c0 ∈ svcs ∧ isServiceVisible m c0 cfgNs = true := by
+    split at hc0
+    · exact exact_sound hc0
+    · exact exported_sound m svcs cfgNs c0 hc0
+  exact ⟨c0, this.1, rfl, this.2⟩
+
+/-- **listener_services_sound**: the services of one egress listener (`IstioEgressListenerWrapper.services`,
+    what LDS / RDS build that listener's routes and filter chains from) are copies of visible mesh
+    services imported by that listener's own host list. -/
+theorem listener_services_sound (f : Flags) (m : Mesh) (svcs : List Svc) (vss : List VS) (cfgNs : String) (l : Listener) :
+    ∀ s ∈ (convertListener f m svcs vss cfgNs l).services,
+      ∃ o ∈ svcs, s.core = o.core ∧ isServiceVisible m o cfgNs = true ∧ ListenerImports cfgNs l o ∧
+        (∀ p ∈ s.ports, p ∈ o.ports) ∧ (∀ a ∈ s.aliases, a ∈ o.aliases) := by
+  intro x hx
+  simp only [convertListener] at hx
+  obtain ⟨c, hc, hio⟩ := mem_selectServices hx
+  obtain ⟨hcore, hports, himp, hal⟩ := importOne_some hio
+  obtain ⟨c0, hc0, rfl, hv⟩ := mem_listener_cands hc
+  obtain ⟨tc, tp⟩ := trim_core f.aliasGuard m svcs cfgNs c0
+  refine ⟨c0, hc0, hcore.trans tc, hv, ?_, ?_, ?_⟩
+  · unfold ListenerImports
+    rw [← core_ns tc, ← core_hostname tc]; exact himp
+  · intro p hp; rw [← tp]; exact hports p hp
+  · intro a ha; exact trim_aliases_sub _ _ _ _ _ a (hal a ha)
+
+/-- **scope_sound**: on the repaired code every service of `SidecarScope.services` is (a port/alias
+    trimmed or port-merged copy of) a service of the mesh that `IsServiceVisible` accepts for the
+    proxy's namespace and that the scope imports - for every mesh, every service list (colliding
+    hostnames, duplicates), every exportTo form and mesh default, every Sidecar or none, both
+    `UnifiedSidecarScoping` / `PickBest` settings, and with or without the exact-host / alias repairs. -/
+theorem scope_sound (f : Flags) (hfix : f.visGuard = true) (m : Mesh) (svcs : List Svc) (vss : List VS)
+    (sc : Option Sidecar) (cfgNs : String) (hvn : ∀ v ∈ vss, v.ns ≠ "*") :
+    ∀ s ∈ scopeServices f m svcs vss sc cfgNs,
+      ∃ o ∈ svcs, s.core = o.core ∧ isServiceVisible m o cfgNs = true ∧ Imported m vss sc cfgNs o := by
+  let Q : Svc → Prop := fun s => ∃ o ∈ svcs, s.core = o.core ∧ isServiceVisible m o cfgNs = true ∧ Imported m vss sc cfgNs o
+  have hQ : ∀ x y : Svc, x.core = y.core → (∀ a ∈ x.aliases, a ∈ y.aliases) → Q y → Q x := by
+    rintro x y hxy _ ⟨o, ho, hyo, hv, hi⟩; exact ⟨o, ho, hxy.trans hyo, hv, hi⟩
+  apply scope_inv Q hQ
+  · -- explicitly imported services
+    intro l hl x hx
+    obtain ⟨o, ho, hc, hv, hi, _, _⟩ := listener_services_sound f m svcs vss cfgNs l x hx
+    exact ⟨o, ho, hc, hv, l, hl, Or.inl hi⟩
+  · -- destinations of imported VirtualServices
+    intro l hl v hv d hd s hr
+    obtain ⟨h1, h2, h3⟩ := resolveDest_some hr
+    simp only [convertListener] at hv
+    obtain ⟨v1, v2, v3, v4⟩ := vs_select_sound f.unified m vss cfgNs _ hvn v hv
+    exact ⟨s, h1, (trim_core _ _ _ _ _).1, h3 hfix, l, hl, Or.inr ⟨v, v1, v2, v3, v4, d, hd, h2.symm⟩⟩
+
+/-- the visibility half of `scope_sound`, without any assumption on the VirtualServices -/
+theorem scope_visible_sound (f : Flags) (hfix : f.visGuard = true) (m : Mesh) (svcs : List Svc) (vss : List VS)
+    (sc : Option Sidecar) (cfgNs : String) :
+    ∀ s ∈ scopeServices f m svcs vss sc cfgNs, ∃ o ∈ svcs, s.core = o.core ∧ isServiceVisible m o cfgNs = true := by
+  let Q : Svc → Prop := fun s => ∃ o ∈ svcs, s.core = o.core ∧ isServiceVisible m o cfgNs = true
+  have hQ : ∀ x y : Svc, x.core = y.core → (∀ a ∈ x.aliases, a ∈ y.aliases) → Q y → Q x := by
+    rintro x y hxy _ ⟨o, ho, hyo, hv⟩; exact ⟨o, ho, hxy.trans hyo, hv⟩
+  apply scope_inv Q hQ
+  · intro l _ x hx
+    obtain ⟨o, ho, hc, hv, _⟩ := listener_services_sound f m svcs vss cfgNs l x hx
+    exact ⟨o, ho, hc, hv⟩
+  · intro l _ v _ d _ s hr
+    obtain ⟨h1, _, h3⟩ := resolveDest_some hr
+    exact ⟨s, h1, (trim_core _ _ _ _ _).1, h3 hfix⟩
 
 /-- `scope_sound` against the documented visibility (`Visible`), for a real namespace name. -/
 theorem scope_sound_spec (f : Flags) (hfix : f.visGuard = true) (m : Mesh) (svcs : List Svc) (vss : List VS)
-    (sc : Option Sidecar) (cfgNs : String) (hns : ValidNs cfgNs) :
+    (sc : Option Sidecar) (cfgNs : String) (hns : ValidNs cfgNs) (hvn : ∀ v ∈ vss, v.ns ≠ "*") :
     ∀ s ∈ scopeServices f m svcs vss sc cfgNs,
-      ∃ o ∈ svcs, s.core = o.core ∧ Visible m o cfgNs ∧ Imported f m vss sc cfgNs o := by
+      ∃ o ∈ svcs, s.core = o.core ∧ Visible m o cfgNs ∧ Imported m vss sc cfgNs o := by
   intro s hs
-  obtain ⟨o, ho, hc, hv, hi⟩ := scope_sound f hfix m svcs vss sc cfgNs s hs
+  obtain ⟨o, ho, hc, hv, hi⟩ := scope_sound f hfix m svcs vss sc cfgNs hvn s hs
   exact ⟨o, ho, hc, (visible_iff m o cfgNs hns).mp hv, hi⟩
+
+/-- **scope_alias_sound**: on the repaired code (`aliasGuard`) every alias hostname carried by a
+    delivered service (it becomes a route domain / SNI match of that service) stands for an
+    ExternalName service that is exported to the proxy's namespace. -/
+theorem scope_alias_sound (f : Flags) (hfix : f.aliasGuard = true) (m : Mesh) (svcs : List Svc) (vss : List VS)
+    (sc : Option Sidecar) (cfgNs : String) :
+    ∀ s ∈ scopeServices f m svcs vss sc cfgNs, ∀ a ∈ s.aliases, AliasVisible m svcs cfgNs a := by
+  let Q : Svc → Prop := fun s => ∀ a ∈ s.aliases, AliasVisible m svcs cfgNs a
+  have hQ : ∀ x y : Svc, x.core = y.core → (∀ a ∈ x.aliases, a ∈ y.aliases) → Q y → Q x := by
+    intro x y _ hsub hy a ha; exact hy a (hsub a ha)
+  apply scope_inv Q hQ
+  · intro l hl x hx a ha
+    simp only [convertListener] at hx
+    obtain ⟨c, hc, hio⟩ := mem_selectServices hx
+    obtain ⟨_, _, _, hal⟩ := importOne_some hio
+    obtain ⟨c0, _, rfl, _⟩ := mem_listener_cands hc
+    rw [hfix] at hal
+    exact trim_aliases_visible m svcs cfgNs c0 a (hal a ha)
+  · intro l _ v _ d _ s _ a ha
+    rw [hfix] at ha
+    exact trim_aliases_visible m svcs cfgNs s a ha
+
+/-- the same for the services of each egress listener (what RDS builds the domains from) -/
+theorem listener_alias_sound (f : Flags) (hfix : f.aliasGuard = true) (m : Mesh) (svcs : List Svc) (vss : List VS)
+    (cfgNs : String) (l : Listener) :
+    ∀ s ∈ (convertListener f m svcs vss cfgNs l).services, ∀ a ∈ s.aliases, AliasVisible m svcs cfgNs a := by
+  intro x hx a ha
+  simp only [convertListener] at hx
+  obtain ⟨c, hc, hio⟩ := mem_selectServices hx
+  obtain ⟨_, _, _, hal⟩ := importOne_some hio
+  obtain ⟨c0, _, rfl, _⟩ := mem_listener_cands hc
+  rw [hfix] at hal
+  exact trim_aliases_visible m svcs cfgNs c0 a (hal a ha)
 
 /-! ### completeness -/
 
@@ -118,11 +207,16 @@ theorem scope_complete (f : Flags) (hfix : f.visGuard = true) (hx : f.exactGuard
     (m : Mesh) (svcs : List Svc) (vss : List VS) (sc : Option Sidecar) (cfgNs : String) (hns : ValidNs cfgNs)
     (o : Svc) (ho : o ∈ svcs) (hv : isServiceVisible m o cfgNs = true) (hwf : ExportWF (serviceExportTo m o))
     (l : Listener) (hl : l ∈ egressOf sc) (hmp : l.matchPort = none)
-    (himp : HostImports (parseHosts cfgNs l.hosts) o.ns o.hostname) :
+    (himp : HostImports (parseHosts cfgNs l.hosts) o.ns o.hostname) (hvn : ∀ v ∈ vss, v.ns ≠ "*") :
     ∃ w ∈ scopeServices f m svcs vss sc cfgNs, w.hostname = o.hostname ∧
-      ∃ o' ∈ svcs, w.core = o'.core ∧ isServiceVisible m o' cfgNs = true ∧ Imported f m vss sc cfgNs o' := by
-  -- a candidate with the same hostname and namespace
-  obtain ⟨c, hc, hch, hcn⟩ := cands_complete (ps := parseHosts cfgNs l.hosts) ho hv hwf hns himp
+      ∃ o' ∈ svcs, w.core = o'.core ∧ isServiceVisible m o' cfgNs = true ∧ Imported m vss sc cfgNs o' := by
+  -- a candidate with the same hostname and namespace (alias-trimmed)
+  obtain ⟨c0, hc0, hch0, hcn0⟩ := cands_complete (ps := parseHosts cfgNs l.hosts) ho hv hwf hns himp
+  obtain ⟨tc, _⟩ := trim_core f.aliasGuard m svcs cfgNs c0
+  have hc := List.mem_map_of_mem (f := trimHiddenAlias f.aliasGuard m svcs cfgNs) hc0
+  generalize trimHiddenAlias f.aliasGuard m svcs cfgNs c0 = c at hc tc
+  have hch : c.hostname = o.hostname := (core_hostname tc).trans hch0
+  have hcn : c.ns = o.ns := (core_ns tc).trans hcn0
   -- it passes the import loop
   have himp' : HostImports (parseHosts cfgNs l.hosts) c.ns c.hostname := by rw [hch, hcn]; exact himp
   obtain ⟨c', hc', hcore⟩ := importOne_of_imports himp'
@@ -136,17 +230,17 @@ theorem scope_complete (f : Flags) (hfix : f.visGuard = true) (hx : f.exactGuard
   obtain ⟨x, hxm, hxh⟩ := collect_hostnames f m svcs cfgNs _ [] _ hilw w hw'
   refine ⟨x, hxm, ?_, ?_⟩
   · rw [hxh, hwh, core_hostname hcore, hch]
-  · exact scope_sound f hfix m svcs vss sc cfgNs x hxm
+  · exact scope_sound f hfix m svcs vss sc cfgNs hvn x hxm
 
 /-- if moreover no other visible mesh service carries the hostname, the service itself is delivered -/
 theorem scope_complete_unique (f : Flags) (hfix : f.visGuard = true) (hx : f.exactGuard = true)
     (m : Mesh) (svcs : List Svc) (vss : List VS) (sc : Option Sidecar) (cfgNs : String) (hns : ValidNs cfgNs)
     (o : Svc) (ho : o ∈ svcs) (hv : isServiceVisible m o cfgNs = true) (hwf : ExportWF (serviceExportTo m o))
     (l : Listener) (hl : l ∈ egressOf sc) (hmp : l.matchPort = none)
-    (himp : HostImports (parseHosts cfgNs l.hosts) o.ns o.hostname)
+    (himp : HostImports (parseHosts cfgNs l.hosts) o.ns o.hostname) (hvn : ∀ v ∈ vss, v.ns ≠ "*")
     (huniq : ∀ o' ∈ svcs, o'.hostname = o.hostname → isServiceVisible m o' cfgNs = true → o' = o) :
     ∃ w ∈ scopeServices f m svcs vss sc cfgNs, w.core = o.core := by
-  obtain ⟨w, hw, hwh, o', ho', hc, hv', _⟩ := scope_complete f hfix hx m svcs vss sc cfgNs hns o ho hv hwf l hl hmp himp
+  obtain ⟨w, hw, hwh, o', ho', hc, hv', _⟩ := scope_complete f hfix hx m svcs vss sc cfgNs hns o ho hv hwf l hl hmp himp hvn
   have := huniq o' ho' ((core_hostname hc).symm.trans hwh) hv'
   exact ⟨w, hw, this ▸ hc⟩
 
@@ -164,11 +258,12 @@ theorem default_imports_all (cfgNs ns h : String) : HostImports (parseHosts cfgN
     delivered or displaced by a visible service with the same hostname. -/
 theorem default_scope_complete (f : Flags) (hfix : f.visGuard = true) (hx : f.exactGuard = true)
     (m : Mesh) (svcs : List Svc) (vss : List VS) (cfgNs : String) (hns : ValidNs cfgNs)
-    (o : Svc) (ho : o ∈ svcs) (hv : isServiceVisible m o cfgNs = true) (hwf : ExportWF (serviceExportTo m o)) :
+    (o : Svc) (ho : o ∈ svcs) (hv : isServiceVisible m o cfgNs = true) (hwf : ExportWF (serviceExportTo m o))
+    (hvn : ∀ v ∈ vss, v.ns ≠ "*") :
     ∃ w ∈ scopeServices f m svcs vss none cfgNs, w.hostname = o.hostname ∧
-      ∃ o' ∈ svcs, w.core = o'.core ∧ isServiceVisible m o' cfgNs = true ∧ Imported f m vss none cfgNs o' :=
+      ∃ o' ∈ svcs, w.core = o'.core ∧ isServiceVisible m o' cfgNs = true ∧ Imported m vss none cfgNs o' :=
   scope_complete f hfix hx m svcs vss none cfgNs hns o ho hv hwf defaultListener (by simp [egressOf])
-    (by simp [Listener.matchPort, defaultListener]) (default_imports_all cfgNs o.ns o.hostname)
+    (by simp [Listener.matchPort, defaultListener]) (default_imports_all cfgNs o.ns o.hostname) hvn
 
 /-! ### the two defects found (behaviour before the `fix:` commits), as theorems about the old model -/
 
@@ -208,7 +303,7 @@ theorem scope_sound_fails_unfixed : ¬ ScopeSoundFor { visGuard := false } := by
 
 theorem scope_sound_holds_fixed (f : Flags) (hfix : f.visGuard = true) : ScopeSoundFor f := by
   intro m svcs vss sc cfgNs s hs
-  obtain ⟨o, _, hc, hv, _⟩ := scope_sound f hfix m svcs vss sc cfgNs s hs
+  obtain ⟨o, _, hc, hv⟩ := scope_visible_sound f hfix m svcs vss sc cfgNs s hs
   rw [visible_of_core_eq m cfgNs hc]; exact hv
 
 /-- F10 mesh: two ServiceEntries for `foo.com` in namespace `shared`, exported to different teams. -/
@@ -226,6 +321,40 @@ theorem exact_path_incomplete_witness_unfixed :
     (scopeServices {} {} f10Svcs [] (some f10Sidecar) "team-b").map (·.id) = ["s1"] ∧
     isServiceVisible {} (mkSvc "s1" "foo.com" "shared" 2 false [80] ["team-b"]) "team-b" = true := by
   decide +kernel
+
+/-- F11 mesh: `alias.secret` is an ExternalName service private to namespace `secret` that points at the
+    public service `pub.ns1`. -/
+def f11Svcs : List Svc :=
+  resolveAliases [mkSvc "s0" "pub.ns1.svc.cluster.local" "ns1" 1 true [80] [],
+    { (mkSvc "s1" "alias.secret.svc.cluster.local" "secret" 2 true [80] ["."]) with extName := some "pub.ns1.svc.cluster.local" }]
+
+/-- **F11 witness**: before the repair (`aliasGuard = false`) a proxy of ns2 receives `pub.ns1` with the
+    alias `alias.secret.svc.cluster.local` (a route domain), although the ExternalName service is not
+    exported to ns2; the repaired code drops the alias for ns2 and keeps it for namespace `secret`. -/
+theorem alias_leak_witness_unfixed :
+    (scopeServices { aliasGuard := false } {} f11Svcs [] none "ns2").map (·.aliases) = [[("secret", "alias.secret.svc.cluster.local")]] ∧
+    (scopeServices {} {} f11Svcs [] none "ns2").map (·.aliases) = [[]] ∧
+    ((scopeServices {} {} f11Svcs [] none "secret").map (·.aliases)).contains [("secret", "alias.secret.svc.cluster.local")] = true ∧
+    aliasKept {} f11Svcs "ns2" ("secret", "alias.secret.svc.cluster.local") = false := by
+  decide +kernel
+
+/-- the full alias statement fails for the old behaviour -/
+theorem scope_alias_sound_fails_unfixed :
+    ¬ (∀ (m : Mesh) (svcs : List Svc) (vss : List VS) (sc : Option Sidecar) (cfgNs : String),
+        ∀ s ∈ scopeServices { aliasGuard := false } m svcs vss sc cfgNs, ∀ a ∈ s.aliases, aliasKept m svcs cfgNs a = true) := by
+  intro h
+  have := h {} f11Svcs [] none "ns2"
+  revert this
+  decide +kernel
+
+/-- a VirtualService exported to another namespace only is never selected (non-vacuity of the
+    filter: the same VirtualService is selected by a proxy of the namespace it is exported to). -/
+example :
+    let v : VS := { (mkVS "v" "ns1" ["a.com"] ["b.com"]) with exportTo := ["ns2"] }
+    let ps := parseHosts "x" ["*/*"]
+    (selectVirtualServices true {} [v] "ns3" ps).length = 0 ∧ (selectVirtualServices true {} [v] "ns2" ps).length = 1 := by
+  decide +kernel
+
 
 /-! ### exact-host fast path vs scan path -/
 
@@ -250,7 +379,7 @@ theorem exact_fastpath_parity (g : Bool) (m : Mesh) (svcs : List Svc) (cfgNs : S
     refine ⟨?_, hi⟩
     obtain ⟨h1, h2⟩ := exported_sound m svcs cfgNs c hc
     obtain ⟨c', hc'⟩ := Option.isSome_iff_exists.mp hi
-    obtain ⟨_, _, himp⟩ := importOne_some hc'
+    obtain ⟨_, _, himp, _⟩ := importOne_some hc'
     obtain ⟨p, hp, hpx, hpk, hpn, hw⟩ := exact_entry_of_imports hall himp
     have hl : lookupHN svcs c.hostname c.ns = some c :=
       lookupHN_of_unique svcs c h1 (fun x hx e1 e2 => hnd x hx c h1 e1 e2)
@@ -294,21 +423,31 @@ theorem fastpath_duplicate_key_witness :
 
 /-! ### gateway default scope -/
 
-/-- `DefaultSidecarScopeForGateway`: only services visible to the gateway's namespace. -/
-theorem gateway_scope_sound (m : Mesh) (svcs : List Svc) (cfgNs : String) :
-    ∀ s ∈ gatewayScopeServices m svcs cfgNs, ∃ o ∈ svcs, s.core = o.core ∧ isServiceVisible m o cfgNs = true := by
+/-- `DefaultSidecarScopeForGateway`: only services visible to the gateway's namespace, and (repaired
+    code) only aliases that are exported to it. -/
+theorem gateway_scope_sound (g : Bool) (m : Mesh) (svcs : List Svc) (cfgNs : String) :
+    ∀ s ∈ gatewayScopeServices g m svcs cfgNs,
+      (∃ o ∈ svcs, s.core = o.core ∧ isServiceVisible m o cfgNs = true) ∧
+      (g = true → ∀ a ∈ s.aliases, AliasVisible m svcs cfgNs a) := by
   intro s hs
   unfold gatewayScopeServices at hs
-  rcases mem_foldl_appendSvc hs with ⟨y, hy, _⟩ | ⟨y, hy, hc⟩
+  rcases mem_foldl_appendSvc hs with ⟨y, hy, _⟩ | ⟨y, hy, hc, hal⟩
   · simp at hy
-  · obtain ⟨h1, h2⟩ := exported_sound m svcs cfgNs y hy
-    exact ⟨y, h1, hc, h2⟩
+  · obtain ⟨y0, hy0, rfl⟩ := List.mem_map.mp hy
+    obtain ⟨h1, h2⟩ := exported_sound m svcs cfgNs y0 hy0
+    refine ⟨⟨y0, h1, hc.trans (trim_core _ _ _ _ _).1, h2⟩, ?_⟩
+    intro hg a ha
+    subst hg
+    rw [hal] at ha
+    exact trim_aliases_visible m svcs cfgNs y0 a ha
 
 /-- ... and the hostname of every visible service (well-formed export set). -/
-theorem gateway_scope_complete (m : Mesh) (svcs : List Svc) (cfgNs : String) (hns : ValidNs cfgNs)
+theorem gateway_scope_complete (g : Bool) (m : Mesh) (svcs : List Svc) (cfgNs : String) (hns : ValidNs cfgNs)
     (o : Svc) (ho : o ∈ svcs) (hv : isServiceVisible m o cfgNs = true) (hwf : ExportWF (serviceExportTo m o)) :
-    ∃ w ∈ gatewayScopeServices m svcs cfgNs, w.hostname = o.hostname :=
-  (hostname_foldl_appendSvc _ []).2 o (exported_complete m svcs cfgNs o ho hv hwf hns)
+    ∃ w ∈ gatewayScopeServices g m svcs cfgNs, w.hostname = o.hostname := by
+  have hm := List.mem_map_of_mem (f := trimHiddenAlias g m svcs cfgNs) (exported_complete m svcs cfgNs o ho hv hwf hns)
+  obtain ⟨w, hw, hwh⟩ := (hostname_foldl_appendSvc _ []).2 _ hm
+  exact ⟨w, hw, hwh.trans (core_hostname (trim_core _ _ _ _ _).1)⟩
 
 /-- the scope never holds two services with the same hostname -/
 theorem appendSvc_nodup_hostnames (acc : List Svc) (s : Svc)
@@ -527,5 +666,28 @@ theorem pickSidecar_sound (m : Mesh) (scs : List Sidecar) (ns : String) (lbl : L
     have hp := List.find?_some h
     simp only [Bool.and_eq_true, beq_iff_eq, Option.isNone_iff_eq_none] at hp
     exact ⟨(mem_sortSidecars scs c).mp hm, Or.inr hp⟩
+
+/-- **pickSidecar_root_default**: a proxy whose namespace has no applicable Sidecar gets the
+    selector-less Sidecar of the root namespace whenever one exists - also when the root namespace
+    holds workloadSelector Sidecars as well. -/
+theorem pickSidecar_root_default (m : Mesh) (scs : List Sidecar) (ns : String) (lbl : List (String × String))
+    (hnone : ∀ c ∈ scs, c.ns = ns → ∃ sel, c.selector = some sel ∧ labelsSubset sel lbl = false)
+    (r : Sidecar) (hr : r ∈ scs) (hrn : r.ns = m.rootNs) (hrs : r.selector = none) :
+    ∃ c, pickSidecar m scs ns lbl = some c ∧ c.ns = m.rootNs ∧ c.selector = none := by
+  unfold pickSidecar
+  split
+  · rename_i x hf
+    exfalso
+    have hm := List.mem_filter.mp (List.mem_of_find?_eq_some hf)
+    have hp := List.find?_some hf
+    obtain ⟨sel, hsel, hl⟩ := hnone x ((mem_sortSidecars scs x).mp hm.1) (by simpa using hm.2)
+    simp [hsel, hl] at hp
+  · unfold rootSidecar
+    have : ((sortSidecars scs).find? fun c => c.ns == m.rootNs && c.selector.isNone).isSome = true :=
+      List.find?_isSome.mpr ⟨r, (mem_sortSidecars scs r).mpr hr, by simp [hrn, hrs]⟩
+    obtain ⟨c, hc⟩ := Option.isSome_iff_exists.mp this
+    have hp := List.find?_some hc
+    simp only [Bool.and_eq_true, beq_iff_eq, Option.isNone_iff_eq_none] at hp
+    exact ⟨c, hc, hp.1, hp.2⟩
 
 end IstioModel.C07
